@@ -44,6 +44,99 @@ theorem acquire_needs_free (c c' : Cfg) (t : Tid) (l : Lock) (rest : List Act) (
     exact ⟨hf, by simp⟩
   · simp [hf] at hs
 
+/-! ## termination: every execution ends with all calls returned and all locks free -/
+
+/-- work left: the total length of the remaining programs -/
+def Cfg.work (c : Cfg) : Nat := (c.progs.map List.length).sum
+
+theorem sum_length_set (ps : List (List Act)) (t : Tid) (a : Act) (rest : List Act) (h : ps.getD t [] = a :: rest) :
+    ((ps.set t rest).map List.length).sum + 1 = (ps.map List.length).sum := by
+  induction ps generalizing t with
+  | nil => simp [List.getD] at h
+  | cons p ps ih =>
+    cases t with
+    | zero =>
+      simp only [List.getD, List.getElem?_cons_zero, Option.getD_some] at h
+      subst h
+      simp only [List.set_cons_zero, List.map_cons, List.sum_cons, List.length_cons]
+      omega
+    | succ t =>
+      have h' : ps.getD t [] = a :: rest := by simpa [List.getD] using h
+      have := ih t h'
+      simp only [List.set_cons_succ, List.map_cons, List.sum_cons]
+      omega
+
+/-- every step consumes one action: no execution is longer than the programs -/
+theorem step_work (c c' : Cfg) (t : Tid) (hs : c.step t = some c') : c'.work + 1 = c.work := by
+  unfold Cfg.step at hs
+  cases hp : c.prog t with
+  | nil => rw [hp] at hs; cases hs
+  | cons a rest =>
+    rw [hp] at hs
+    have hset : ∀ h : Lock → Option Tid, (Cfg.mk (c.progs.set t rest) h).work + 1 = c.work := by
+      intro h
+      exact sum_length_set c.progs t a rest hp
+    cases a with
+    | acq l =>
+      simp only at hs
+      split at hs
+      · cases hs; exact hset _
+      · cases hs
+    | rel l =>
+      simp only at hs
+      split at hs
+      · cases hs; exact hset _
+      · cases hs
+
+/-- **Progress**: in a reachable configuration of ranked programs, while some call has not returned some thread can move -/
+theorem progress (rank : Lock → Nat) (progs : List (List Act)) (h : ∀ p ∈ progs, Ok rank [] p) (c : Cfg)
+    (hr : Reachable progs c) (hu : ∃ t, c.unfinished t) : ∃ t c', c.step t = some c' := by
+  have hnd := rank_no_deadlock rank progs h c hr
+  apply Classical.byContradiction
+  intro hno
+  apply hnd
+  refine ⟨hu, ?_⟩
+  intro t _
+  cases hst : c.step t with
+  | none => rfl
+  | some c' => exact absurd ⟨t, c', hst⟩ hno
+
+/-- **All calls returned ⇒ every lock is free**: nothing is left locked, so every manager still answers and accepts updates -/
+theorem all_done_locks_free (rank : Lock → Nat) (progs : List (List Act)) (h : ∀ p ∈ progs, Ok rank [] p) (c : Cfg)
+    (hr : Reachable progs c) (hdone : ∀ t, ¬ c.unfinished t) (l : Lock) : c.holder l = none := by
+  have hinv := reachable_LInv rank progs h c hr
+  cases hh : c.holder l with
+  | none => rfl
+  | some t => exact absurd (holder_unfinished rank c hinv l t hh) (hdone t)
+
+/-- **Termination**: from any reachable configuration, a scheduler that keeps choosing a thread that can move — one exists as
+long as a call has not returned (`progress`) — makes exactly `work` more steps, after which every call has returned and
+every lock is free; no execution is longer. -/
+theorem terminates (rank : Lock → Nat) (progs : List (List Act)) (h : ∀ p ∈ progs, Ok rank [] p) (c : Cfg)
+    (hr : Reachable progs c) :
+    ∃ c', Reachable progs c' ∧ (∀ t, ¬ c'.unfinished t) ∧ ∀ l, c'.holder l = none := by
+  generalize hw : c.work = w
+  induction w generalizing c with
+  | zero =>
+    have hdone : ∀ t, ¬ c.unfinished t := by
+      intro t ⟨hlt, hne⟩
+      have hmem : c.prog t ∈ c.progs := by
+        unfold Cfg.prog
+        have : c.progs.getD t [] = c.progs[t]'hlt := by simp [List.getD, hlt]
+        rw [this]; exact List.getElem_mem _
+      have : (c.prog t).length ≤ (c.progs.map List.length).sum := le_sum_of_mem' _ _ (List.mem_map_of_mem hmem)
+      unfold Cfg.work at hw
+      have hz : (c.prog t).length = 0 := by omega
+      exact hne (List.length_eq_zero_iff.mp hz)
+    exact ⟨c, hr, hdone, all_done_locks_free rank progs h c hr hdone⟩
+  | succ w ih =>
+    by_cases hu : ∃ t, c.unfinished t
+    · obtain ⟨t, c', hst⟩ := progress rank progs h c hr hu
+      have := step_work c c' t hst
+      exact ih c' (Reachable.step c c' t hr hst) (by omega)
+    · have hdone : ∀ t, ¬ c.unfinished t := fun t ht => hu ⟨t, ht⟩
+      exact ⟨c, hr, hdone, all_done_locks_free rank progs h c hr hdone⟩
+
 /-! ## the instance extracted from the current source -/
 
 open Generated
@@ -62,6 +155,19 @@ theorem managers_deadlock_free (progs : List (List Act))
     (h : ∀ p ∈ progs, ∃ ops : List (List Act), (∀ o ∈ ops, ∃ name, (name, o) ∈ traces) ∧ p = ops.flatten)
     (c : Cfg) (hr : Reachable progs c) : ¬ Deadlocked c := by
   apply rank_no_deadlock rankOf progs _ c hr
+  intro p hp
+  obtain ⟨ops, hops, rfl⟩ := h p hp
+  apply ok_flatten
+  intro o ho
+  obtain ⟨name, hn⟩ := hops o ho
+  exact trace_ok name o hn
+
+/-- **The managers' calls terminate and leave every lock free** (same hypotheses as `managers_deadlock_free`) -/
+theorem managers_terminate (progs : List (List Act))
+    (h : ∀ p ∈ progs, ∃ ops : List (List Act), (∀ o ∈ ops, ∃ name, (name, o) ∈ traces) ∧ p = ops.flatten)
+    (c : Cfg) (hr : Reachable progs c) :
+    ∃ c', Reachable progs c' ∧ (∀ t, ¬ c'.unfinished t) ∧ ∀ l, c'.holder l = none := by
+  apply terminates rankOf progs _ c hr
   intro p hp
   obtain ⟨ops, hops, rfl⟩ := h p hp
   apply ok_flatten
